@@ -184,7 +184,7 @@ var walkKeepFuncs = map[string]bool{"htmlEscapeString": true}
 
 var walkIgnoreFuncs = map[string]bool{"toFloat": true, "len": true, "make": true, "append": true, "recover": true, "int": true, "float64": true,
 	"string": true, "isInt": true, "isString": true, "checkNumArgs": true, "isNullSafeAccess": true,
-	"notifyCall": true, // verification hook with an empty body in the build under check (scope_hook_off.go), like notifyUnbound
+	"notifyCall":  true, // verification hook with an empty body in the build under check (scope_hook_off.go), like notifyUnbound
 	"fmt.Sprintf": true, "fmt.Errorf": true, "debug.Stack": true, "errors.New": true,
 	"data.Int": true, "data.Float": true, "data.String": true, "data.Bool": true, "data.List": true, "data.Map": true}
 var walkIgnoreMethods = map[string]bool{"String": true, "Truthy": true, "Equals": true, "Index": true, "Key": true,
